@@ -341,17 +341,25 @@ func staticCalleeName(c ssa.CallInstruction) (pkg, name string) {
 	cc := c.Common()
 	if cc.IsInvoke() {
 		if cc.Method != nil && cc.Method.Pkg() != nil {
-			return cc.Method.Pkg().Path(), "(" + typeStr(cc.Value.Type()) + ")." + cc.Method.Name()
+			return cc.Method.Pkg().Path(), "(" + bareTypeName(cc.Value.Type()) + ")." + cc.Method.Name()
 		}
 		return "", cc.Method.Name()
 	}
 	if f := cc.StaticCallee(); f != nil {
 		if o := f.Object(); o != nil && o.Pkg() != nil {
 			if f.Signature.Recv() != nil {
-				return o.Pkg().Path(), "(" + typeStr(deref(f.Signature.Recv().Type())) + ")." + o.Name()
+				return o.Pkg().Path(), "(" + bareTypeName(f.Signature.Recv().Type()) + ")." + o.Name()
 			}
 			return o.Pkg().Path(), o.Name()
 		}
 	}
 	return "", ""
+}
+
+func bareTypeName(t types.Type) string {
+	t = deref(t)
+	if n, ok := t.(*types.Named); ok {
+		return n.Obj().Name()
+	}
+	return typeStr(t)
 }
